@@ -69,7 +69,7 @@ def include_flags(cpp: str, restrict: bool = True) -> list[str]:
 
 def syntax_check(cpp_path: Path, cpp: str, timeout: int = 60) -> tuple[bool, str]:
     """g++ front end with AVR-like flags, no C++ standard headers (closest to avr-gcc)."""
-    cmd = [GXX, "-std=gnu++11", "-fpermissive", "-fno-threadsafe-statics", "-nostdinc++", "-fsyntax-only", "-w",
+    cmd = [GXX, "-std=gnu++11", "-fpermissive", "-fno-threadsafe-statics", "-nostdinc++", "-fsyntax-only", "-w", "-DREDU_AVR_LONG",
            "-x", "c++"] + include_flags(cpp) + [str(cpp_path)]
     p = subprocess.run(cmd, capture_output=True, text=True, timeout=timeout)
     return p.returncode == 0, p.stderr
@@ -83,7 +83,7 @@ def build(cpp: str, workdir: Path, *, coverage: bool = True, timeout: int = 120)
     obj = workdir / "sketch.o"
     binary = workdir / "fw"
     inc = include_flags(cpp)
-    cmd = [CLANG, "-std=gnu++17", "-O0", "-gline-tables-only", "-nostdinc++", "-w", "-ferror-limit=5"] + SAN
+    cmd = [CLANG, "-std=gnu++17", "-O0", "-gline-tables-only", "-nostdinc++", "-w", "-ferror-limit=5", "-DREDU_AVR_LONG", "-Wno-keyword-macro"] + SAN
     if coverage:
         cmd += COV
     p = subprocess.run(cmd + inc + ["-c", str(src), "-o", str(obj)], capture_output=True, text=True, timeout=timeout)
@@ -91,7 +91,7 @@ def build(cpp: str, workdir: Path, *, coverage: bool = True, timeout: int = 120)
     diag = p.stderr
     if p.returncode != 0:
         # g++ -fpermissive accepts some constructs clang rejects (as the AVR toolchain does)
-        cmd = [GXX, "-std=gnu++11", "-fpermissive", "-O0", "-g1", "-nostdinc++", "-w", "-fmax-errors=5"] + SAN
+        cmd = [GXX, "-std=gnu++11", "-fpermissive", "-O0", "-g1", "-nostdinc++", "-w", "-fmax-errors=5", "-DREDU_AVR_LONG"] + SAN
         p2 = subprocess.run(cmd + inc + ["-c", str(src), "-o", str(obj)], capture_output=True, text=True,
                             timeout=timeout)
         if p2.returncode != 0:
@@ -112,7 +112,7 @@ def build_plain(cpp: str, workdir: Path, timeout: int = 120) -> dict:
     src = workdir / "sketch.cpp"
     src.write_text(cpp)
     binary = workdir / "fw_plain"
-    cmd = [GXX, "-std=gnu++11", "-fpermissive", "-O0", "-g", "-nostdinc++", "-w"] + include_flags(cpp) + ["-c", str(src), "-o", str(workdir / "sketch_plain.o")]
+    cmd = [GXX, "-std=gnu++11", "-fpermissive", "-O0", "-g", "-nostdinc++", "-w", "-DREDU_AVR_LONG"] + include_flags(cpp) + ["-c", str(src), "-o", str(workdir / "sketch_plain.o")]
     p = subprocess.run(cmd, capture_output=True, text=True, timeout=timeout)
     if p.returncode != 0:
         return {"ok": False, "diag": p.stderr}
